@@ -52,8 +52,28 @@ def streaming(R, thorough):
             R.violation("multi-part %s (%s build): the state after an update / the final digest is not what Streaming.tla allows: %s"
                         % (a, variant, (evs[k - 1] if 0 < k <= len(evs) else tr.tail(8))[:300]),
                         {"alg": a, "variant": variant, "events": evs[max(0, k - 6):k + 1]}, name="streaming")
+    # long streams (beyond 2^32 bits): counters only
+    big = []
+    for variant in (("native", "portable") if thorough else ("native",)):
+        exe = R.cc("mp_driver", ["mp_driver.c"], variant)
+        for a in ("sha256", "sha512", "blake2b"):
+            out = R.path("mp", "big-%s-%s.ndjson" % (variant, a))
+            big.append((variant, a, out, exe))
+    with ThreadPoolExecutor(max_workers=6) as ex:
+        list(ex.map(lambda m: R.run([m[3], str(R.seed), m[1], "513", m[2], "big"], ok_codes=(0, 70), timeout=1200), big))
+        bres = list(ex.map(lambda m: R.tlc("sys/TraceStreamCounter.tla", "TraceStreamCounter_%s.cfg" % m[1], env={"TRACE": m[2]}, timeout=900, heap="2g",
+                                           tag="sc-%s-%s" % (m[0], m[1])), big))
+    for (variant, a, out, _), tr in zip(big, bres):
+        evs = open(out).read().splitlines()
+        lines += len(evs)
+        m = re.search(r'"REJECTED at line",\s*(\d+)', tr.out)
+        if m or tr.violated or not tr.ok:
+            k = int(m.group(1)) if m else 0
+            R.violation("multi-part %s on a 513 MiB stream (%s build): byte counter / buffered amount / final digest is not what TraceStreamCounter allows: %s"
+                        % (a, variant, (evs[k - 1] if 0 < k <= len(evs) else tr.tail(8))[:300]),
+                        {"alg": a, "variant": variant, "events": evs[max(0, k - 4):k + 1]}, name="longstream")
     R.cov["streaming_model"] = {"module": "Streaming", "distinct": st, "generated": gen, "broken_variants_rejected": 2,
-                                "trace_events_validated": lines, "algorithms": MP_ALGS}
+                                "trace_events_validated": lines, "algorithms": MP_ALGS, "long_streams": "513 MiB in 1 MiB updates, SHA-256 / SHA-512 / BLAKE2b"}
     return lines
 
 
